@@ -26,6 +26,11 @@ type Report struct {
 	Verbose     bool
 	Timeout     int
 	Shared      *Shared
+	CrossChecked, CrossDisagree int
+	ReplayDir   string
+	NoMutants   bool
+	Overlay     map[string][]byte
+	Jobs        int
 }
 
 type knownFinding struct {
@@ -149,7 +154,13 @@ func (r *Report) finish() int {
 			undecided = append(undecided, wmsg)
 		}
 	}
+	if r.CrossDisagree > 0 {
+		undecided = append(undecided, fmt.Sprintf("solver disagreement on %d obligations (tool failure)", r.CrossDisagree))
+	}
 	for _, res := range r.Results {
+		if res.Unit != nil && res.Unit.coverStatus == "unsat" {
+			undecided = append(undecided, "vacuity: the entry assumptions (requires/type invariants) of "+res.Key+" are contradictory")
+		}
 		if res.Err != "" {
 			undecided = append(undecided, res.Err)
 		}
@@ -201,6 +212,18 @@ func (r *Report) finishProp(prop string, known []knownFinding, unclaimed []uncla
 	bySolver := map[string]int{}
 	var solveSum, solveMax float64
 	claimed := 0
+	// every open known finding of this property is reported on every run
+	printedKnown := map[string]bool{}
+	for _, k := range known {
+		if k.Status == "open" && k.Property == prop {
+			line := fmt.Sprintf("KNOWN-FINDING: property=%s %s: %s", prop, k.Obligation, k.Witness)
+			if !printedKnown[line] {
+				printedKnown[line] = true
+				knownPrinted = append(knownPrinted, line)
+				fmt.Println(line)
+			}
+		}
+	}
 	for _, o := range mine {
 		isUnclaimed := false
 		for _, e := range unclaimed {
@@ -217,11 +240,6 @@ func (r *Report) finishProp(prop string, known []knownFinding, unclaimed []uncla
 		for _, k := range known {
 			if k.Status == "open" && k.Property == prop && globMatch(k.Obligation, o.Name) {
 				isKnown = true
-				if o.Status != "discharged" {
-					line := fmt.Sprintf("KNOWN-FINDING: property=%s %s: %s", prop, o.Name, k.Witness)
-					knownPrinted = append(knownPrinted, line)
-					fmt.Println(line)
-				}
 				break
 			}
 		}
@@ -350,6 +368,18 @@ func (r *Report) finishProp(prop string, known []knownFinding, unclaimed []uncla
 	for _, k := range sortedKeys(notes) {
 		assumptions = append(assumptions, "model note: "+k)
 	}
+	// vacuity guards of the units involved
+	cover := map[string]int{}
+	for _, res := range r.Results {
+		if res.Unit != nil && funcs[res.Key] != "" && res.Unit.coverStatus != "" {
+			cover[res.Unit.coverStatus]++
+		}
+	}
+	var mutants []map[string]interface{}
+	killed := 0
+	if r.Tier == "thorough" && !r.NoMutants {
+		mutants, killed = r.runMutants(prop)
+	}
 	ev := map[string]interface{}{
 		"property_id": prop,
 		"tier":        r.Tier,
@@ -370,6 +400,11 @@ func (r *Report) finishProp(prop string, known []knownFinding, unclaimed []uncla
 			"samples":       samples,
 			"functions":     funcs,
 			"known_findings_printed": knownPrinted,
+			"entry_assumption_cover_checks": cover,
+			"cross_checked_by_second_solver": r.CrossChecked,
+			"mutants":        mutants,
+			"mutants_killed": killed,
+			"mutants_total":  len(mutants),
 			"unclaimed_obligations":  unclaimedList,
 			"undecided":              undecided,
 		},
@@ -411,6 +446,9 @@ func round2(f float64) float64 { return float64(int(f*100+0.5)) / 100 }
 func (r *Report) writeReplay(prop string, o *Obligation) (string, bool) {
 	h := sha1.Sum([]byte(o.Name))
 	dir := filepath.Join(r.Verif, "replays", prop)
+	if r.ReplayDir != "" {
+		dir = filepath.Join(r.ReplayDir, prop)
+	}
 	os.MkdirAll(dir, 0o777)
 	path := filepath.Join(dir, fmt.Sprintf("%x.json", h[:6]))
 	rp := map[string]interface{}{
